@@ -16,6 +16,7 @@ import sys
 from pathlib import Path
 
 from . import tlc, tlaval
+from .judge import judge as _judge
 from .common import Check, WORK
 
 INF = 99
@@ -143,30 +144,8 @@ def random_cases(rng: random.Random, n: int, maxsize: int) -> list[dict]:
     return out
 
 
-def judge(records: list[dict], tag: str, jobs: int = 8) -> tuple[list, int, int]:
-    """Have TLC judge the records (split in batches, one JVM each). Returns (bad, states, consumed)."""
-    d = tlc.workdir(tag)
-    nb = max(1, min(jobs, len(records) // 4000 + 1))
-    batches = [records[k::nb] for k in range(nb)]
-
-    def one(k):
-        tf, vf = d / f"trace{k}.ndjson", d / f"verdict{k}.json"
-        tlc.write_ndjson(tf, batches[k])
-        res = tlc.run("TraceSelect.tla", "TraceSelect.cfg", env={"TRACE_FILE": str(tf), "VERDICT_FILE": str(vf)},
-                      workers=1, tag=f"{tag}-b{k}", timeout=1800)
-        if not res.ok or not vf.exists():
-            raise tlc.MachineryError(f"trace judge failed: {res.violated}\n" + "\n".join(res.out.splitlines()[-30:]))
-        v = json.loads(vf.read_text())
-        if v["consumed"] != len(batches[k]):
-            raise tlc.MachineryError(f"judge consumed {v['consumed']} of {len(batches[k])} records")
-        return v["bad"], res.states, v["consumed"]
-
-    with cf.ThreadPoolExecutor(nb) as ex:
-        outs = list(ex.map(one, range(nb)))
-    import shutil
-    shutil.rmtree(d, ignore_errors=True)
-    bad = [tuple(b) for o in outs for b in o[0]]
-    return bad, sum(o[1] for o in outs), sum(o[2] for o in outs)
+def judge(records, tag):
+    return _judge("TraceSelect.tla", "TraceSelect.cfg", records, tag)
 
 
 def corrupt(rec: dict, rng: random.Random) -> tuple[dict, str] | None:
@@ -247,7 +226,10 @@ def main(chk: Check) -> None:
     can, want = [], {}
     pool = records[:]
     rng.shuffle(pool)
+    flagged_ids = {rid for rid, _ in bad}
     for r in pool:
+        if r["id"] in flagged_ids:
+            continue
         cr = corrupt(r, rng)
         if cr and sum(1 for w in want.values() if w == cr[1]) < 5:
             cr[0]["id"] = len(can) + 1
